@@ -27,7 +27,7 @@ pub trait Vf:
     }
     const NAME: &'static str;
 }
-impl Vf for crate::rat::Rat {
+impl Vf for sl_rat::Rat {
     fn fb(_bits: u64) -> Self {
         unimplemented!("Rat has no bit pattern")
     }
@@ -35,7 +35,7 @@ impl Vf for crate::rat::Rat {
         unimplemented!("Rat has no bit pattern")
     }
     fn ft(tok: &str) -> Option<Self> {
-        crate::rat::Rat::from_tok(tok)
+        sl_rat::Rat::from_tok(tok)
     }
     fn tt(self) -> String {
         self.to_tok()
